@@ -881,6 +881,11 @@ class Folder:
                     return base[lo:hi:st_]
                 raise Unfoldable("slice")
             i = self.fold(sl)
+            if isinstance(i, PyTuple) and i and all(t_ is None for t_ in i) and not isinstance(base, PySeq) and (isinstance(base, list) or isinstance(base, (int, float, complex))):
+                out_ = base  # t[(None,) * k]: k new leading axes of length 1
+                for _ in i:
+                    out_ = [out_]
+                return out_
             if isinstance(i, PyTuple) and not isinstance(sl, ast.Tuple) and isinstance(base, list) and not isinstance(base, PySeq) and all(isinstance(t_, int) and not isinstance(t_, bool) for t_ in i):
                 # a python tuple of integers held in a variable: one index per axis (t[pos]; the empty tuple gives t itself)
                 cur_ = base
@@ -1155,6 +1160,13 @@ class Folder:
                         dims += list(t) if isinstance(t, list) else [t]
                 if isinstance(v, list):
                     return _reshape(v, dims)
+                if isinstance(v, (int, float, complex)) and not isinstance(v, bool) and dims and all(d_ in (1, -1) for d_ in dims) and sum(1 for d_ in dims if d_ == -1) <= 1:
+                    out_ = v  # a 0-dim value viewed with axes of length 1
+                    for _ in dims:
+                        out_ = [out_]
+                    return out_
+                if isinstance(v, (int, float, complex)) and not isinstance(v, bool) and not dims:
+                    return v
                 raise Unfoldable("reshape of a scalar")
             if m == "squeeze" and len(node.args) <= 1 and not node.keywords:
                 v = self.fold(node.func.value)
@@ -1185,6 +1197,8 @@ class Folder:
                 v, d = self.fold(node.func.value), self.fold(node.args[0])
                 if d == 0:
                     return [v]
+                if not isinstance(v, list) and isinstance(v, (int, float, complex)) and d == -1:
+                    return [v]  # a 0-dim value has the single axis position 0 == -1
                 if isinstance(v, list) and not any(isinstance(x, list) for x in v) and d in (1, -1):
                     return [[x] for x in v]
                 if isinstance(v, list) and not isinstance(v, PySeq) and isinstance(d, int) and not isinstance(d, bool):
@@ -1300,8 +1314,10 @@ class Folder:
                     raise Unfoldable("expand_as")
                 if not all(isinstance(d, int) and not isinstance(d, bool) for d in dims):
                     raise Unfoldable("expand sizes")
-                cur = v if isinstance(v, list) else [v]
-                shp = _shape(cur)
+                cur = v
+                shp = _shape(cur) if isinstance(cur, list) else []  # a number is a 0-dim value
+                if len(shp) > len(dims):
+                    raise Unfoldable("expand to fewer axes")
                 while len(shp) < len(dims):
                     cur, shp = [cur], [1] + shp
 
